@@ -485,7 +485,8 @@ Definition level (s : store) (e : env) (rt : rtype) (cs : list cst) (lim : optio
 Definition is_nil {X} (l : list X) : bool := match l with [] => true | _ => false end.
 Definition is_none {X} (o : option X) : bool := match o with None => true | Some _ => false end.
 
-(* rows: the outer item first *)
+(* rows: the outer item first.  A variable of an enclosing query is looked up outermost first
+   (resolve_*var walks the state stack from the bottom), hence the binding goes to the end. *)
 Fixpoint sem (s : store) (e : env) (q : query) {struct q} : list (list item) :=
   match q with
   | Q name rt cs lim _ sub =>
@@ -494,7 +495,7 @@ Fixpoint sem (s : store) (e : env) (q : query) {struct q} : list (list item) :=
       | None => map (fun it => [it]) items
       | Some sq =>
           flat_map (fun it =>
-                      let inner := sem s ((name, it) :: e) sq in
+                      let inner := sem s (e ++ [(name, it)]) sq in
                       if q_opt sq && is_nil inner then [[it]] else map (cons it) inner) items
       end
   end.
@@ -1006,12 +1007,12 @@ Fixpoint csat_chain (s : store) (e : env) (c : cst) (it : item) {struct c} : boo
 
 (** ** The state machine of QueryIter.  Every level has at most one sub-query, so a query path
    is determined by its length.  Frames: the remaining items of the level's iterator, the
-   current result, the done flag. *)
+   current result, the done flag.  The stack is kept innermost frame first. *)
 Record frame := mkfr { f_iter : list item; f_res : option item; f_done : bool }.
-Record mach := mkm { m_stack : list frame (* outermost first *); m_path : nat }.
+Record mach := mkm { m_stack : list frame (* innermost first *); m_path : nat }.
 Inductive status := SNew | SIgnore | SAllDone | SInvalid | SPanic.
 
-Fixpoint level_q (q : query) (n : nat) : option query :=
+Fixpoint level_q (q : query) (n : nat) {struct n} : option query :=
   match n with
   | 0 => Some q
   | S n' => match q_sub q with Some sq => level_q sq n' | None => None end
@@ -1021,65 +1022,60 @@ Section Machine.
   Variable s : store.
   Variable root : query.
 
-  (* resolve_*var: the states of the stack, named by the prefixes of the query path *)
+  (* resolve_*var: the states of the stack (outermost first), named by the prefixes of the query path *)
   Definition env_of (st : list frame) : env :=
     flat_map (fun p => match level_q root (fst p), f_res (snd p) with
                        | Some q, Some it => [(q_name q, it)]
                        | _, _ => []
                        end) (combine (seq 0 (length st)) st).
 
-  Definition set_last_done (st : list frame) : list frame :=
-    match rev st with
+  Definition mark_done (st : list frame) : list frame :=
+    match st with
     | [] => []
-    | t :: r => rev r ++ [mkfr (f_iter t) (f_res t) true]
+    | t :: r => mkfr (f_iter t) (f_res t) true :: r
     end.
-  Definition last_done (st : list frame) : bool :=
-    match rev st with [] => false | t :: _ => f_done t end.
+  Definition top_done (st : list frame) : bool :=
+    match st with [] => false | t :: _ => f_done t end.
 
-  Fixpoint next_state (fuel : nat) (m : mach) : mach * status :=
-    match fuel with
-    | 0 => (m, SPanic)
-    | S f =>
-        match rev (m_stack m) with
-        | [] => (m, SAllDone)
-        | top :: below_rev =>
-            let below := rev below_rev in
-            if f_done top then next_state f (mkm below (m_path m))      (* the path is not popped *)
-            else
-              match m_path m with
-              | 0 => (m, SPanic)                         (* get_query(&[]).expect("query must exist") *)
-              | S p =>
-                  match level_q root p with
-                  | None => (m, SPanic)
-                  | Some cur =>
-                      match f_iter top with
-                      | x :: r => (mkm (below ++ [mkfr r (Some x) false]) (S p), SNew)
-                      | [] =>
-                          if Nat.eqb p 0 then next_state f (mkm below p)
-                          else if q_opt cur && is_none (f_res top)
-                               then (mkm (set_last_done below) p, SIgnore)
-                               else next_state f (mkm below p)
-                      end
+  (* next_state: the loop pops one state per round *)
+  Fixpoint next_state (st : list frame) (path : nat) {struct st} : mach * status :=
+    match st with
+    | [] => (mkm [] path, SAllDone)
+    | top :: below =>
+        if f_done top then next_state below path                  (* the path is not popped *)
+        else
+          match path with
+          | 0 => (mkm st path, SPanic)                             (* get_query(&[]).expect("query must exist") *)
+          | S p =>
+              match level_q root p with
+              | None => (mkm st path, SPanic)
+              | Some cur =>
+                  match f_iter top with
+                  | x :: r => (mkm (mkfr r (Some x) false :: below) (S p), SNew)
+                  | [] =>
+                      if Nat.eqb p 0 then next_state below p
+                      else if q_opt cur && is_none (f_res top)
+                           then (mkm (mark_done below) p, SIgnore)
+                           else next_state below p
                   end
               end
-        end
+          end
     end.
 
   (* the path was extended by the caller *)
-  Definition init_state (fuel : nat) (m : mach) : mach * status :=
+  Definition init_state (m : mach) : mach * status :=
     match m_path m with
     | 0 => (m, SPanic)
     | S p =>
         match level_q root p with
         | None => (m, SPanic)
         | Some q =>
-            let e := env_of (m_stack m) in
+            let e := env_of (rev (m_stack m)) in
             match scan_level s e (q_rt q) true (q_cs q) with
             | LvInvalid => (m, SInvalid)
             | LvPanic => (m, SPanic)
-            | LvEmpty => next_state fuel (mkm (m_stack m ++ [mkfr [] None false]) (m_path m))
-            | LvOk => next_state fuel (mkm (m_stack m ++ [mkfr (level_impl s e (q_rt q) (q_cs q) (q_lim q)) None false])
-                                           (m_path m))
+            | LvEmpty => next_state (mkfr [] None false :: m_stack m) (m_path m)
+            | LvOk => next_state (mkfr (level_impl s e (q_rt q) (q_cs q) (q_lim q)) None false :: m_stack m) (m_path m)
             end
         end
     end.
@@ -1102,8 +1098,8 @@ Section Machine.
         | None => (m, SPanic)
         | Some mn =>
             if length (m_stack m) <? mn then
-              if last_done (m_stack m) then (m, SIgnore)
-              else match init_state 8 (mkm (m_stack m) (S (m_path m))) with
+              if top_done (m_stack m) then (m, SIgnore)
+              else match init_state (mkm (m_stack m) (S (m_path m))) with
                    | (m2, SNew) => init_all f m2
                    | r => r
                    end
@@ -1112,9 +1108,9 @@ Section Machine.
     end.
 
   Definition row_of (st : list frame) : list item :=
-    flat_map (fun fr => match f_res fr with Some it => [it] | None => [] end) st.
+    flat_map (fun fr => match f_res fr with Some it => [it] | None => [] end) (rev st).
 
-  (* Iterator::next until None; None = a panic *)
+  (* Iterator::next until None; None = a panic (or the budget of this model ran out) *)
   Fixpoint iterate (fuel : nat) (m : mach) (acc : list (list item)) : option (list (list item)) :=
     match fuel with
     | 0 => None
@@ -1124,7 +1120,7 @@ Section Machine.
         | (_, SAllDone) | (_, SInvalid) => Some acc
         | (m1, _) =>
             let row := row_of (m_stack m1) in
-            match next_state 8 m1 with
+            match next_state (m_stack m1) (m_path m1) with
             | (_, SPanic) => None
             | (_, SAllDone) => Some (acc ++ [row])
             | (m2, _) => iterate f m2 (acc ++ [row])
@@ -1162,8 +1158,8 @@ Fixpoint optional_empty (s : store) (e : env) (q : query) {struct q} : bool :=
       | None => false
       | Some sq =>
           existsb (fun it =>
-                     (q_opt sq && is_nil (sem s ((name, it) :: e) sq))
-                     || optional_empty s ((name, it) :: e) sq)
+                     (q_opt sq && is_nil (sem s (e ++ [(name, it)]) sq))
+                     || optional_empty s (e ++ [(name, it)]) sq)
                   (level s e rt cs lim)
       end
   end.
